@@ -86,6 +86,10 @@ static GLOBAL: Counting = Counting;
 
 const VERSIONS: [u32; 4] = [1, 2, 3, 1000];
 
+// connection level: writer side, handler results, handshake messages on the wire
+#[path = "../codec_ext.rs"]
+mod ext;
+
 struct Ctx {
 	out: Out,
 	rng: Rng,
@@ -2893,6 +2897,7 @@ fn main() {
 		refusals(&mut cx);
 		headers_inconsistent(&mut cx);
 		headers_excess(&mut cx);
+		ext::headers_short(&mut cx);
 	}
 	if mode == "all" || mode == "handshake" {
 		handshakes(&mut cx);
@@ -2913,6 +2918,15 @@ fn main() {
 	}
 	if mode == "all" || mode == "ring" {
 		nonce_ring(&mut cx);
+	}
+	if mode == "all" || mode == "duplex" {
+		ext::duplex(&mut cx, &work);
+	}
+	if mode == "all" || mode == "hconn" {
+		ext::handler_results(&mut cx, &work);
+	}
+	if mode == "all" || mode == "hsw" {
+		ext::handshake_wire(&mut cx);
 	}
 	let stats = std::mem::take(&mut cx.stats);
 	for (k, v) in stats {
